@@ -89,14 +89,18 @@ CLAIMED["C16"] = (
     "DESIGN.md section 2, C16",
 )
 CLAIMED["C08"] = (
-    "method-table resolution through the MRO, wrapper shape checks, abstract interpretation over the key-set domain, operator table comparison",
-    "Static: every interface wrapper resolves to an existing method (no autoray dispatch cycle), forwards its parameters once in "
-    "order and is exported/registered under its name; the blockwise binary operation and multiply_diagonal are abstractly "
-    "interpreted over key regions {left-only, shared, right-only} with token values, giving exactly L / L-union-R / "
-    "L-intersect-R and fn(left,right) on the shared region; operator dunders match the (function, mode, in-place, operand order) "
-    "table. Found and fixed the log* recursion and the non-commutative product." + PARTIAL_NOTE,
-    "Numerical agreement with the dense operation is not decided. Assumes the blockwise code treats keys uniformly.",
-    "DESIGN.md section 2, C08",
+    "abstract interpretation of every interface function invoked three ways (function, method, autoray dispatch) over shaped tokens; "
+    "abstract interpretation over the key-set domain; operator table comparison",
+    "Every function of the interface module, invoked as symmray.<name>(...), as the method of the same name and through "
+    "ar.do('<name>', ...), gives the same result on an abelian array, a fermionic array with pending signs and (where it has the "
+    "method) a block vector; a missing method shows up as the dispatch cycle; each function is exported and registered under its own "
+    "name. The blockwise binary operation and multiply_diagonal are abstractly interpreted over key regions {left-only, shared, "
+    "right-only} with token values, giving exactly L / L-union-R / L-intersect-R and fn(left,right) on the shared region; operator "
+    "dunders match the (function, mode, in-place, operand order) table. Found and fixed the log* recursion and the non-commutative "
+    "product." + PARTIAL_NOTE,
+    "Numerical agreement with the dense operation is not decided. Assumes the blockwise code treats keys uniformly; sample operands "
+    "per interface function are one abelian, one fermionic, one vector case.",
+    "DESIGN.md sections 2 and 15, C08",
 )
 CLAIMED["C10"] = (
     "sibling agreement (cross-check) of FermionicArray.conj and .dagger by def-use extraction of five ingredients on helper-inlined bodies",
@@ -192,8 +196,9 @@ CLAIMED["C11"] = (
     "on the right; one bond charge per input block, keyed by the block's column charge and sized by the factor's column count; "
     "right factor sectors (c, c) with the identity charge; singular values keyed by column charge; non-matrices are refused; "
     "eigh refuses charged matrices and keys eigenvalues by column charge; solve pairs blocks by row charge, the solution carries "
-    "the conjugate column index and charge(b) - charge(a). The fermionic wrappers' signs and the truncated variant's joint "
-    "re-indexing are the C03 / C13 rules re-run here. " + BOUNDED + PARTIAL_NOTE,
+    "the conjugate column index and charge(b) - charge(a). The stabilised QR's sign correction, evaluated on representative pivots (0, +, -), is "
+    "+1, +1, -1 on Q's columns and R's rows (a zero pivot annihilates nothing). The fermionic wrappers' signs and the truncated "
+    "variant's joint re-indexing are the C03 / C13 rules re-run here. " + BOUNDED + PARTIAL_NOTE,
     "Orthonormality, triangularity, ordering of singular values and reconstruction are numerical and not decided.",
     "DESIGN.md sections 7 and 11, C11",
 )
